@@ -5,6 +5,7 @@ import RactorModel.Lemmas.FactoryHandler
 import RactorModel.Lemmas.FactoryStop
 import RactorModel.Lemmas.FactoryActors
 import RactorModel.Lemmas.FactoryNoPanic
+import RactorModel.Lemmas.FactoryNoDrop
 
 /-!
 # C13 — Factory: every job meets exactly one fate, never runs twice
@@ -276,6 +277,17 @@ consultation inside `route_message` (with that pick as the hint) finds a worker 
 theorem never_panics (c : CaseCfg) (steps : List Step) : Ev.panicked ∉ ((init c).runSteps steps).env.log :=
   never_panics_run c steps
 
+/-- (the ghost fate `dropped`) For every configuration and EVERY sequence of operations: as long as the factory
+actor has not exited, no job has been dropped without a report. With `never_panics`, `post_stop_abandons_nothing`
+and `conservation`: while the factory runs, every accepted job is in exactly one place or has one of the REPORTED
+fates (handled, handed to the discard handler, lost with a dead worker). The only source of `dropped` is a
+dispatch still in the factory's mailbox when the factory actor exits (its acceptance port is then closed,
+seen as `acc=[id:x]`). -/
+theorem never_drops_while_running (c : CaseCfg) (steps : List Step)
+    (hx : ((init c).runSteps steps).exited = false) (id : Nat) :
+    Ev.dropped id ∉ ((init c).runSteps steps).env.log :=
+  never_drops_run c steps hx id
+
 /-- the step behind it, for ANY state (reachable or not): routing the job with the router's own pick as
 the hint never answers `Backlog` -/
 theorem targeted_route_never_backlogs (w : W) (j : Job) (hint : Option Nat) (worker : Nat) (w1 : W)
@@ -460,6 +472,7 @@ end C13
 #print axioms C13.worker_dequeue_skips_expired
 #print axioms C13.factory_dequeue_skips_expired
 #print axioms C13.never_panics
+#print axioms C13.never_drops_while_running
 #print axioms C13.targeted_route_never_backlogs
 #print axioms C13.die_loses_only_held
 #print axioms C13.dispatchJob_to_dead_keeps_job
